@@ -55,7 +55,7 @@ fn render(base: &[FieldSpec], var: &Var) -> Vec<u8> {
                         if fixed_total > 0 {
                             let target = pick(sel, fixed_total);
                             if target >= fixed_seen && target < fixed_seen + b.len() {
-                                b[target - fixed_seen] ^= x | 1;
+                                b[target - fixed_seen] ^= if x == 0 { 0x20 } else { x };
                             }
                         }
                     }
@@ -102,7 +102,7 @@ fn render(base: &[FieldSpec], var: &Var) -> Vec<u8> {
             let mut v = flat(base, None, None, None);
             if !v.is_empty() {
                 let i = pick(*sel, v.len());
-                v[i] ^= *x | 1;
+                v[i] ^= if *x == 0 { 0x20 } else { *x };
             }
             v
         }
@@ -119,16 +119,16 @@ fn var_strategy() -> impl Strategy<Value = Var> {
         2 => junk().prop_map(Var::Junk),
         1 => (1u8..3).prop_map(Var::DropLast),
         3 => (any::<u64>(), junk()).prop_map(|(m, j)| Var::FlipCaseJunk(m, j)),
-        1 => (any::<u16>(), any::<u8>()).prop_map(|(s, x)| Var::Xor(s, x)),
+        2 => (any::<u16>(), prop_oneof![2 => Just(0x20u8), 1 => Just(1u8), 2 => any::<u8>()]).prop_map(|(s, x)| Var::Xor(s, x)),
         1 => junk().prop_map(Var::JunkAfterFirstName),
-        2 => (any::<u64>(), any::<u16>(), any::<u8>()).prop_map(|(m, s, x)| Var::FlipCaseXorFixed(m, s, x)),
+        3 => (prop_oneof![1 => Just(0u64), 2 => any::<u64>()], any::<u16>(), prop_oneof![2 => Just(0x20u8), 1 => Just(1u8), 2 => any::<u8>()]).prop_map(|(m, s, x)| Var::FlipCaseXorFixed(m, s, x)),
     ]
 }
 
 /// Bases biased to name-bearing types, in several classes.
 fn base_strategy() -> impl Strategy<Value = (u16, u16, Vec<FieldSpec>)> {
     let name = || gen_name().prop_map(|n| FieldSpec::Name(n, 0));
-    let b = |n: usize| prop::collection::vec(any::<u8>(), n..=n).prop_map(FieldSpec::Bytes);
+    let b = |n: usize| prop::collection::vec(prop_oneof![2 => any::<u8>(), 1 => b'A'..=b'Z', 1 => b'a'..=b'z'], n..=n).prop_map(FieldSpec::Bytes);
     let class = || prop_oneof![4 => Just(mr::C_IN), 2 => Just(mr::C_CH), 1 => Just(mr::C_HS), 1 => Just(300u16)];
     prop_oneof![
         3 => (prop_oneof![Just(mr::T_NS), Just(mr::T_CNAME), Just(mr::T_PTR), Just(mr::T_MB), Just(mr::T_MD), Just(mr::T_MF), Just(mr::T_MG), Just(mr::T_MR)], class(), name()).prop_map(|(t, c, n)| (t, c, vec![n])),
@@ -142,6 +142,9 @@ fn base_strategy() -> impl Strategy<Value = (u16, u16, Vec<FieldSpec>)> {
         // types whose RDATA happens to look like a name but must compare octet-wise
         1 => (prop_oneof![Just(mr::T_TXT), Just(mr::T_NULL), Just(99u16), Just(mr::T_AAAA), Just(mr::T_HINFO)], class(), name()).prop_map(|(t, c, n)| (t, c, vec![n])),
         2 => valid_rdata().prop_map(|(t, c, f)| (t, c, f)),
+        // large RDATA of unknown types at the sizes where length encodings change width
+        1 => (prop_oneof![Just(99u16), Just(mr::T_NULL), Just(mr::T_TXT)], class(), prop_oneof![Just(127usize), Just(128), Just(255), Just(256), Just(16383), Just(16384), Just(32767), Just(32768), Just(40000), Just(65533)], any::<u8>())
+            .prop_map(|(t, c, n, fill)| (t, c, vec![FieldSpec::Bytes(vec![fill; n])])),
     ]
 }
 
@@ -170,6 +173,9 @@ pub fn oracle(f: &Family, st: &mut Stats) -> Verdict {
             };
             let va = mr::validate(class, rtype, a);
             let vb = mr::validate(class, rtype, b);
+            if a != b && !expect && a.len() == b.len() && a.eq_ignore_ascii_case(b) && caseless && va && vb {
+                st.class("well-formed, equal up to ASCII case, differ in a fixed field");
+            }
             if a != b && expect {
                 st.class("differ-octetwise-but-equal");
                 st.nontrivial(&(class, rtype, a, b), || json!({"class": class, "type": rtype, "a": hex(a), "b": hex(b), "equal": true}));
